@@ -140,6 +140,8 @@ func main() {
 		modeC07()
 	case "c15":
 		modeC15()
+	case "c17":
+		modeC17()
 	default:
 		res.InfraError("unknown mode %s", mode)
 	}
@@ -168,6 +170,19 @@ func replayMode() {
 		}
 		res.Eval()
 		checkC07(a, x)
+		return
+	}
+	if rp.Mode == "c17" {
+		var cc C17Case
+		json.Unmarshal([]byte(rp.Extra), &cc)
+		x, err := vrt.Replay(baseCfg(), rp.Choices, func() { runC17(cc) })
+		if err != nil {
+			res.InfraError("%v", err)
+			return
+		}
+		res.Eval()
+		fmt.Fprintf(os.Stderr, "replay c17 %s: outcome=%s err=%v wire=%v\n", cc, x.Outcome, c17cur.sendErr, c17cur.wire)
+		checkC17(cc, x)
 		return
 	}
 	if rp.Mode == "c15" {
